@@ -37,6 +37,10 @@ def emit_param_str(
     """
     name, _param = param
     del param
+    # The prose as written: a default is announced even when nothing else is said about the parameter
+    doc = set_default_doc((name, _param), emit_default_doc=emit_default_doc)[1].get(
+        "doc"
+    )
 
     _fill = fill if word_wrap else identity
 
@@ -57,11 +61,9 @@ def emit_param_str(
                         (
                             ":{key}: {doc}".format(
                                 key=key,
-                                doc=set_default_doc(
-                                    (name, _param), emit_default_doc=emit_default_doc
-                                )[1]["doc"],
+                                doc=doc,
                             )
-                            if emit_doc and _param.get("doc")
+                            if emit_doc and doc
                             else None,
                             ":{key_typ}: ```{typ}```".format(
                                 key_typ=key_typ, typ=_param["typ"]
@@ -91,14 +93,10 @@ def emit_param_str(
                     if emit_type and _param.get("typ")
                     else None,
                     indent(
-                        _fill(
-                            set_default_doc(
-                                (name, _param), emit_default_doc=emit_default_doc
-                            )[1]["doc"]
-                        ),
+                        _fill(doc),
                         tab,
                     )
-                    if emit_doc and _param.get("doc")
+                    if emit_doc and doc
                     else None,
                 ),
             )
@@ -122,14 +120,12 @@ def emit_param_str(
                     if _param.get("typ")
                     else None,
                     "{nl}{tab}{doc}".format(
-                        doc=set_default_doc(
-                            (name, _param), emit_default_doc=emit_default_doc
-                        )[1]["doc"],
+                        doc=doc,
                         **{"nl": "\n", "tab": " " * 3}
                         if name == "return_type"
                         else {"nl": "", "tab": ""}
                     )
-                    if emit_doc and _param.get("doc")
+                    if emit_doc and doc
                     else None,
                 ),
             )
